@@ -664,9 +664,12 @@ func c09Scens(tier string) []c09Scen {
 						if tier != "thorough" && ((word != "regular" && pol == 1) || (entry == "media" && ai == 1)) {
 							continue
 						}
-						b := bound
+						b := 0
 						if tier != "thorough" && pol == 0 && word == "regular" && ai == 0 && entry == "index" && (ci == 0 || ci == 3) {
 							b = 1 // every schedule one deviation away from the canonical one
+						}
+						if tier == "thorough" && pol == 0 && entry == "index" && ai != 1 {
+							b = bound // thorough: one deviation from the run-until-blocked schedule for every configuration and word
 						}
 						shards := 1
 						if b > 0 {
